@@ -103,6 +103,12 @@ fn gen_c15(o: &mut Out, tier: &str, seed: u64) {
 fn gen_c16(o: &mut Out, tier: &str, seed: u64) {
     let mut r = Rng::new(seed, "c16");
     let reps = if tier == "thorough" { 16 } else { 2 };
+    // the generic encoder with context types of other alignments (a downstream proof type may have one)
+    for (kind, sz) in [("u64", 8usize), ("u32x3", 12), ("u16x5", 10), ("u8x7", 7), ("u128", 16)] {
+        for tb in [0usize, 1, 12] {
+            o.op("encode.generic-context", &format!("state encodeg {} {} {} {}", kind, hex(&r.bytes(32)), tb, hex(&r.bytes(sz))));
+        }
+    }
     for b in 0..=255u32 {
         o.op("ptype", &format!("state ptype {}", b));
     }
